@@ -408,8 +408,8 @@ def run_case(case, ctx, mode):
                               f"(16*d^2 of those: {[D[i] for i in sorted(exp ^ got)[:10]]}, 16*r^2={r2})")
                 else:
                     D = float_dist(pts, q)
-                    must = {i for i in range(N) if D[i] < r - tol}
-                    may = {i for i in range(N) if abs(D[i] - r) <= tol}
+                    must = {i for i in range(N) if D[i] <= r - tol}
+                    may = {i for i in range(N) if r - tol < D[i] <= r + tol}       # exempt: within tol of the sphere
                     ctx.check(must <= got and got <= (must | may), "radius:set",
                               f"{where} r={r!r}: missing {sorted(must - got)[:10]} extra {sorted(got - must - may)[:10]} "
                               f"(distances {[D[i] for i in sorted((must - got) | (got - must - may))[:10]]})")
